@@ -20,6 +20,8 @@ with five sub-checks (every case is one real call, judged by the float64 referen
     object-sequence sequences of calls on ONE ExpFlow / SVF / SVFFD object (exp(v), exp(v, inverse=True), exp(v),
                    exp.inv(v), exp(v), exp.inverse().inverse()(v), ...): every step equals expv of the (negated)
                    velocity field value for value, forward steps also the closed form (state kept in the object)
+    layout         the velocity field / SVF parameters / SVFFD coefficients given as transposed view, step-sliced view
+                   and stride-0 expanded batch: no exception, result equal to the contiguous form, argument unchanged
     smooth-inverse exp(v) o exp(-v) = id and exp(-v) o exp(v) = id (composition evaluated by the
                    reference's own multilinear interpolator) within A * S2(v) samples, S2 = sum over axes
                    of the largest second difference of v in samples (second order in the amplitude A),
@@ -40,7 +42,8 @@ RULE = (
     "complete product of grid shapes x align_corners x affine generator menu (hull invariance verified by the "
     "reference per case) x steps 0..8 x scales x float32/float64 x batch sizes x API forms (expv, ExpFlow, "
     "SVF.u, SVFFD.u), plus relations between calls (inverse flag, module vs function, convergence in k, "
-    "exp(v) o exp(-v)); distinct = hash of the returned tensor; non-trivial = returned displacement differs "
+    "exp(v) o exp(-v)), call / object sequences, and memory layouts of the given field (transposed view, step-sliced "
+    "view, stride-0 batch) on a reduced menu; distinct = hash of the returned tensor; non-trivial = returned displacement differs "
     "from the scaled input by more than 1e-3 of its magnitude (squaring had an effect)"
 )
 EXPLANATION = "bounded exhaustive enumeration of expv configurations against the closed form (I+G/2^k)^(2^k)"
@@ -57,7 +60,7 @@ ASSUMPTIONS = [
 ]
 MIN_NONTRIVIAL = {"quick": 4000, "thorough": 9000}
 MIN_OUTCOMES = {"quick": 10000, "thorough": 35000}
-MIN_SUB_TRACES = {"closed-form": 4000, "inverse-flag": 500, "convergence": 100, "api-equal": 500, "smooth-inverse": 40, "call-sequence": 200, "object-sequence": 200}
+MIN_SUB_TRACES = {"closed-form": 4000, "inverse-flag": 500, "convergence": 100, "api-equal": 500, "smooth-inverse": 40, "call-sequence": 200, "object-sequence": 200, "layout": 200}
 
 C = 64.0
 EPS = {"f32": 2.0 ** -23, "f64": 2.0 ** -52}
@@ -163,6 +166,9 @@ def bounds(tier):
         "smooth_shapes": [list(s) for s in SMOOTH_SHAPES[tier]],
         "smooth_amplitudes_samples": SMOOTH_AMPL + [a / 2 for a in SMOOTH_AMPL],
         "smooth_steps": [5, 8] if tier == "quick" else [3, 5, 8],
+        "layout_forms": LAYOUT_FORMS,
+        "layout_apis": LAYOUT_APIS,
+        "layout_shapes": [list(s) for s in LAYOUT_SHAPES],
     }
 
 
@@ -814,6 +820,107 @@ def case_object_sequence(case) -> Result:
     return r
 
 
+
+# ---------------------------------------------------------------------------
+# memory layout of the user-supplied velocity field / parameters
+LAYOUT_FORMS = ["transposed", "sliced", "expanded"]
+LAYOUT_SHAPES = [(5, 7), (3, 4, 5)]
+LAYOUT_APIS = ["expv", "ExpFlow", "SVF.u", "SVFFD.u"]
+
+
+def _fp(t: torch.Tensor):
+    base = t._base if t._base is not None else t
+    return (t._version, t.data_ptr(), tuple(t.shape), tuple(t.stride()), t.detach().clone(), base.detach().clone())
+
+
+def _fp_changed(t: torch.Tensor, fp) -> str:
+    if tuple(t.shape) != fp[2] or tuple(t.stride()) != fp[3] or t.data_ptr() != fp[1]:
+        return "metadata changed"
+    base = t._base if t._base is not None else t
+    if not torch.equal(t.detach(), fp[4]) or not torch.equal(base.detach(), fp[5]):
+        return "values (or the buffer the view lives in) changed"
+    if t._version != fp[0]:
+        return f"_version {fp[0]} -> {t._version}"
+    return ""
+
+
+def _layout_call(api, field, shape, ac, scale, steps, dtype):
+    """The real call with `field` as velocity field (expv / ExpFlow / SVF parameters) or B-spline coefficients."""
+    if api != "SVFFD.u":
+        return call_api(api, field, shape, ac, scale, steps)
+    from deepali.core import Grid
+    from deepali.spatial import StationaryVelocityFreeFormDeformation
+
+    t = StationaryVelocityFreeFormDeformation(Grid(shape=tuple(shape), align_corners=True), groups=field.shape[0], params=False, stride=2, scale=scale, steps=steps)
+    t = t.to(DT[dtype])
+    t.data_(field)
+    return t.update().u
+
+
+def case_layout(case) -> Result:
+    """Same values, other memory layout (transposed view, step-sliced view, stride-0 batch): no exception, result
+    equal to the contiguous form, argument unchanged."""
+    from ref.layout import applicable, relayout
+
+    r = Result()
+    shape, ac, dtype = tuple(case["shape"]), case["ac"], case["dtype"]
+    D = len(shape)
+    api, form, steps, scale = case["api"], case["layout"], case["steps"], case["scale"]
+    tail = f"api={api}/" + _sigtail({**case, "N": 2}) + f"/layout={form}"
+    if api == "SVFFD.u":
+        from deepali.core import functional as U
+
+        fshape = tuple(U.cubic_bspline_control_point_grid_size(shape, (2,) * D))
+    else:
+        fshape = shape
+    if case["field"] == "affine":
+        one = fa.affine_field(generator("rot", D, case["seed"]), fshape, ac)
+        two = fa.affine_field(generator("shear", D, case["seed"]), fshape, ac)
+    else:
+        one = fa.generic_field(fshape, ac, case["seed"], 0.3)
+        two = fa.generic_field(fshape, ac, case["seed"] + 1, 0.2)
+    if form == "expanded":
+        base = torch.tensor(one, dtype=DT[dtype])
+        arg = relayout(base, "expanded", 2)
+        ref_arg = relayout(base, "repeat", 2)
+    else:
+        ref_arg = torch.tensor(np.stack([one, two]), dtype=DT[dtype])
+        if not applicable(ref_arg, form):
+            r.undef.append("layout-not-applicable")
+            return r
+        arg = relayout(ref_arg, form)
+    if arg.is_contiguous() or not torch.equal(arg, ref_arg):
+        raise AssertionError("harness: relayout did not produce an equal non-contiguous tensor")
+    st, ref = guarded(_layout_call, api, ref_arg, shape, ac, scale, steps, dtype)
+    r.trans += 1
+    if st == "raises":
+        r.undef.append("contiguous-form-raises (judged by the other sub-checks)")
+        return r
+    fp = _fp(arg)
+    st, out = guarded(_layout_call, api, arg, shape, ac, scale, steps, dtype)
+    r.trans += 1
+    r.judged += 1
+    if st == "raises":
+        r.bad(f"C11/layout/{tail}/raises={type(out).__name__}", exc_text(out))
+        return r
+    if not isinstance(out, torch.Tensor) or out.shape != ref.shape:
+        r.bad(f"C11/layout/{tail}/shape", f"{type(out).__name__} {getattr(out, 'shape', None)} vs {tuple(ref.shape)}")
+        return r
+    r.outcomes.append(h64(_np(out)))
+    r.nontriv.append(h64("layout", case["shape"], ac, dtype, api, form, steps, case["field"]))
+    if not torch.equal(out, ref):
+        tol = C * EPS[dtype] * (1 + steps) * max(float(ref_arg.abs().max()) * abs(scale), 1e-9)
+        d = float((out.double() - ref.double()).abs().max())
+        if not np.isfinite(d) or d > tol:
+            r.bad(f"C11/layout/{tail}/value", f"result differs from the contiguous form by {d:.3e} > tol {tol:.2e} (steps {steps}, scale {scale}, field {case['field']}, shape {shape}, strides {tuple(arg.stride())})")
+        else:
+            r.undef.append("layout-result-equal-within-rounding-not-bitwise")
+    c = _fp_changed(arg, fp)
+    if c:
+        r.bad(f"C11/layout/{tail}/operand-mutated", f"{c} (steps {steps}, scale {scale}, shape {shape})")
+    return r
+
+
 KINDS = {
     "closed-form": case_closed_form,
     "inverse-flag": case_inverse_flag,
@@ -822,6 +929,7 @@ KINDS = {
     "smooth-inverse": case_smooth,
     "call-sequence": case_call_sequence,
     "object-sequence": case_object_sequence,
+    "layout": case_layout,
 }
 
 
@@ -876,6 +984,16 @@ def cases_of(shard):
                 for steps in bounds(tier)["smooth_steps"]:
                     for api, form in (("expv", "flag"), ("ExpFlow", "module.inverse"), ("SVF.u", "module.inverse")):
                         yield {**base, "which": which, "amp": amp, "steps": steps, "api": api, "form": form}
+    elif kind == "layout":
+        for ac_ in (True, False):
+            for dt in ("f32", "f64"):
+                for api in LAYOUT_APIS:
+                    if api == "SVFFD.u" and not ac_:
+                        continue
+                    for steps in (0, 4):
+                        for fld in ("affine", "generic"):
+                            for form in LAYOUT_FORMS:
+                                yield {"kind": kind, "shape": list(shape), "seed": seed, "ac": ac_, "dtype": dt, "api": api, "steps": steps, "scale": 0.5, "field": fld, "layout": form}
     elif kind == "object-sequence":
         for ac_ in (True, False):
             for dt in ("f32", "f64"):
@@ -903,6 +1021,8 @@ def shards(tier: str, seed: int):
                     out.append({"tier": tier, "seed": seed, "kind": "closed-form", "shape": list(shape), "ac": ac, "dtype": dtype, "N": N})
                 for kind in ("inverse-flag", "api-equal", "convergence"):
                     out.append({"tier": tier, "seed": seed, "kind": kind, "shape": list(shape), "ac": ac, "dtype": dtype})
+    for shape in LAYOUT_SHAPES:
+        out.append({"tier": tier, "seed": seed, "kind": "layout", "shape": list(shape), "ac": True, "dtype": "mixed"})
     for shape in SMOOTH_SHAPES[tier]:
         for ac in (True, False):
             for dtype in ("f32", "f64"):
